@@ -32,6 +32,11 @@ Val(n) == CASE n = "i1" -> Sc("int", 10000) [] n = "i2" -> Sc("int", 20000) [] n
             [] n = "T12" -> V("tuple", 0, "-", "-", <<Sc("int", 10000), Sc("int", 20000)>>)
             [] n = "Labc" -> V("list", 0, "-", "-", <<St("abc", "plain"), St("abd", "plain")>>)
             [] n = "LABC" -> V("list", 0, "-", "-", <<St("abc", "upper"), St("abd", "plain")>>)
+            \* dictionaries with one key: core/deco describe the key text, x the value
+            [] n = "D_A1" -> V("dict", 10000, "abc", "upper", <<>>) [] n = "D_a2" -> V("dict", 20000, "abc", "plain", <<>>)
+            [] n = "D_a1" -> V("dict", 10000, "abc", "plain", <<>>)
+            [] n = "huge" -> Sc("int", 2000000000)         \* stands for 10**400: an int no float can hold
+            [] n = "T1a" -> V("tuple", 0, "-", "-", <<Sc("int", 10000), St("abc", "plain")>>)
             [] OTHER -> Sc("none", 0)
 
 Numeric(v) == v.k \in {"int", "bool", "float"}
@@ -42,7 +47,14 @@ PyEq(l, r) == IF Numeric(l) /\ Numeric(r) THEN l.x = r.x
               ELSE IF l.k = "str" /\ r.k = "str" THEN l.core = r.core /\ l.deco = r.deco
               ELSE IF l.k = r.k /\ l.k \in {"list", "tuple"}
                    THEN Len(l.e) = Len(r.e) /\ \A i \in 1..Len(l.e) : PyEq(l.e[i], r.e[i])
+              ELSE IF l.k = "dict" /\ r.k = "dict" THEN l.core = r.core /\ l.deco = r.deco /\ l.x = r.x
               ELSE l.k = "none" /\ r.k = "none"
+\* Operand pairs on which the documented equality cannot be computed: the float tolerance needs float(10**400)
+\* (OverflowError); dictionaries whose keys agree only after normalisation (the value lookup fails).  On these
+\* assert_equal must fail (the operands are not equal under any reading); assert_not_equal is left unspecified.
+IsHuge(v) == v.k = "int" /\ v.x = 2000000000
+Uneval(l, r) == \/ (IsHuge(l) /\ r.k = "float") \/ (IsHuge(r) /\ l.k = "float")
+                \/ (l.k = "dict" /\ r.k = "dict" /\ l.core = r.core /\ l.deco # r.deco)
 \* documented equality: tolerance when either side is a float, normalised strings, recursion into sequences
 RECURSIVE Eq(_, _)
 Eq(l, r) == IF Numeric(l) /\ Numeric(r)
@@ -75,15 +87,18 @@ Ord(l, r) == IF Numeric(l) /\ Numeric(r) THEN (IF l.x < r.x THEN "lt" ELSE IF l.
                         ELSE Ord(l.e[2], r.e[2]))
              ELSE "U"
 Truthy(v) == CASE Numeric(v) -> v.x # 0 [] v.k = "str" -> v.core # "" [] v.k \in {"list", "tuple"} -> v.e # <<>>
+               [] v.k = "dict" -> TRUE
                [] OTHER -> FALSE
-HasLen(v) == v.k \in {"str", "list", "tuple"}
-LenOf(v) == IF v.k = "str" THEN (IF v.core = "" THEN 0 ELSE 3 + (IF v.deco = "punct" THEN 1 ELSE 0)) ELSE Len(v.e)
+HasLen(v) == v.k \in {"str", "list", "tuple", "dict"}
+LenOf(v) == IF v.k = "dict" THEN 1 ELSE IF v.k = "str" THEN (IF v.core = "" THEN 0 ELSE 3 + (IF v.deco = "punct" THEN 1 ELSE 0)) ELSE Len(v.e)
 \* substring relation among the strings of the universe (case-sensitive, exact text)
 SubStr(n, h) == \/ n.core = "" \/ (n.core = h.core /\ n.deco = h.deco) \/ (n.core = "abc" /\ n.deco = "plain" /\ h.core = "abc" /\ h.deco = "punct")
 B(x) == IF x THEN "T" ELSE "F"
-Neg(t) == IF t = "T" THEN "F" ELSE IF t = "F" THEN "T" ELSE "U"
+Neg(t) == IF t = "T" THEN "F" ELSE IF t = "F" THEN "T" ELSE t
 In(l, r) == IF r.k \in {"list", "tuple"} THEN B(\E i \in 1..Len(r.e) : PyEq(l, r.e[i]))
             ELSE IF r.k = "str" THEN (IF l.k = "str" THEN B(SubStr(l, r)) ELSE "U")
+            ELSE IF r.k = "dict" THEN (IF l.k \in {"list", "dict"} THEN "U"      \* unhashable needle
+                                       ELSE B(l.k = "str" /\ l.core = r.core /\ l.deco = r.deco))
             ELSE "U"
 Cmp(l, r, ok) == IF Ord(l, r) = "U" THEN "U" ELSE B(Ord(l, r) \in ok)
 \* len(seq) <rel> n : equality with a non-number is simply False, ordering against a non-number cannot be evaluated
@@ -93,7 +108,8 @@ LenRel(l, r, ok) == IF ~HasLen(l) THEN "U"
 
 Holds(a, l, r) ==
     IF l.k = "err" \/ r.k = "err" THEN "U" ELSE
-    CASE a = "equal" -> B(EqUsed(l, r)) [] a = "not_equal" -> B(~EqUsed(l, r))
+    CASE a = "equal" -> (IF Uneval(l, r) THEN "F" ELSE B(EqUsed(l, r)))
+      [] a = "not_equal" -> (IF Uneval(l, r) THEN "XU" ELSE B(~EqUsed(l, r)))
       [] a = "less" -> Cmp(l, r, {"lt"}) [] a = "less_equal" -> Cmp(l, r, {"lt", "eq"})
       [] a = "greater" -> Cmp(l, r, {"gt"}) [] a = "greater_equal" -> Cmp(l, r, {"gt", "eq"})
       [] a = "in" -> In(l, r) [] a = "not_in" -> Neg(In(l, r))
@@ -106,6 +122,25 @@ Unary(a) == a \in {"is_none", "is_not_none", "true", "false"}
 \* operand domains of the assertion families added after the first table
 IdentityVals == {"none", "bT", "i1", "i2", "L12", "L0"}         \* singletons cached by CPython, and lists (always distinct objects)
 TypeNames == {"t:int", "t:float", "t:str", "t:list", "t:bool", "t:tuple"}
+\* type expressions accepted by assert_type: builtin classes, their names as strings, generic aliases (object and
+\* string), the literal forms [int] and (int, int)
+TypeExprs == {"t:int", "t:float", "t:str", "t:list", "t:bool", "t:tuple", "t:dict", "s:int", "s:str", "s:list",
+              "g:list_int", "sg:list_int", "g:list_str", "lit:list_int", "tt:int_int", "sg:tuple_int_str", "sg:dict_str_int"}
+\* "T"/"F" where pedal's documented value typing is unambiguous, "X" = left unspecified (heterogeneous containers):
+\* only the complement law is demanded there
+ElemsAre(v, k) == \A i \in 1..Len(v.e) : v.e[i].k = k
+NoElemIs(v, k) == \A i \in 1..Len(v.e) : v.e[i].k # k
+ListOf(v, k) == IF v.k # "list" THEN "F" ELSE IF ElemsAre(v, k) THEN "T" ELSE IF NoElemIs(v, k) THEN "F" ELSE "X"
+TypeMatch(v, t) ==
+    CASE t \in {"t:int", "s:int"} -> B(v.k = "int") [] t = "t:float" -> B(v.k = "float") [] t \in {"t:str", "s:str"} -> B(v.k = "str")
+      [] t = "t:bool" -> B(v.k = "bool") [] t \in {"t:list", "s:list"} -> B(v.k = "list") [] t = "t:tuple" -> B(v.k = "tuple")
+      [] t = "t:dict" -> B(v.k = "dict")
+      [] t \in {"g:list_int", "sg:list_int", "lit:list_int"} -> ListOf(v, "int")
+      [] t = "g:list_str" -> ListOf(v, "str")
+      [] t = "tt:int_int" -> B(v.k = "tuple" /\ Len(v.e) = 2 /\ ElemsAre(v, "int"))
+      [] t = "sg:tuple_int_str" -> B(v.k = "tuple" /\ Len(v.e) = 2 /\ v.e[1].k = "int" /\ v.e[2].k = "str")
+      [] t = "sg:dict_str_int" -> B(v.k = "dict")           \* every dictionary of the universe maps a str to an int
+      [] OTHER -> "U"
 Patterns == {"re:ab.", "re:^b", "re:z", "re:[0-9]"}
 \* output assertions: the left operand is an execution that printed, the right one the expected text
 Outputs == {"o:abc", "o:ABC!", "o:abd", "o:none", "o:two", "err"}
@@ -125,6 +160,7 @@ RDom(a) == IF OutFam(a) THEN OutTexts
            ELSE IF Unary(a) THEN {"none"}
            ELSE IF a \in {"is", "is_not"} THEN IdentityVals \cap ValNames
            ELSE IF a \in {"is_instance", "not_is_instance"} THEN TypeNames
+           ELSE IF a \in {"type", "not_type"} THEN TypeExprs
            ELSE IF a \in {"regex", "not_regex"} THEN {"abc", "ABC", "abc!", "abd", "empty", "i1", "L12", "none", "err"} \cap (ValNames \cup {"err"})
            ELSE ValNames
 InstanceOf(v, t) == CASE t = "t:int" -> v.k \in {"int", "bool"} [] t = "t:float" -> v.k = "float" [] t = "t:str" -> v.k = "str"
@@ -144,16 +180,17 @@ HoldsN(a, ln, rn) ==
       [] a = "is_not" -> B(~(ln = rn /\ Val(ln).k \in {"none", "bool", "int"}))
       [] a = "is_instance" -> B(InstanceOf(Val(ln), rn))
       [] a = "not_is_instance" -> B(~InstanceOf(Val(ln), rn))
+      [] a = "type" -> TypeMatch(Val(ln), rn) [] a = "not_type" -> Neg(TypeMatch(Val(ln), rn))
       [] a = "output" -> B(NF(ln) = NF(rn)) [] a = "not_output" -> B(NF(ln) # NF(rn))
       [] a = "output_contains" -> B(<<ln, rn>> \in ContainsPairs) [] a = "not_output_contains" -> B(<<ln, rn>> \notin ContainsPairs)
       [] a = "regex" -> B(Matches(ln, TextOf(rn)))
       [] a = "not_regex" -> B(~Matches(ln, TextOf(rn)))
       [] OTHER -> "U"
-ByName(a) == OutFam(a) \/ a \in {"is", "is_not", "is_instance", "not_is_instance", "regex", "not_regex"}
+ByName(a) == OutFam(a) \/ a \in {"is", "is_not", "is_instance", "not_is_instance", "regex", "not_regex", "type", "not_type"}
 Negation(a) == CASE a = "equal" -> "not_equal" [] a = "in" -> "not_in" [] a = "is_none" -> "is_not_none"
                  [] a = "true" -> "false" [] a = "less" -> "greater_equal" [] a = "greater" -> "less_equal"
                  [] a = "length_equal" -> "length_not_equal" [] a = "length_less" -> "length_greater_equal"
-                 [] a = "is" -> "is_not" [] a = "is_instance" -> "not_is_instance" [] a = "regex" -> "not_regex"
+                 [] a = "is" -> "is_not" [] a = "is_instance" -> "not_is_instance" [] a = "regex" -> "not_regex" [] a = "type" -> "not_type"
                  [] a = "output" -> "not_output" [] a = "output_contains" -> "not_output_contains"
                  [] OTHER -> "-"
 
@@ -170,7 +207,7 @@ Init == \/ /\ kind = "assert" /\ a \in Asserts /\ l \in LDom(a) /\ r \in RDom(a)
            /\ cases \in SeqsUpTo(Outcomes, MaxCases) /\ done = 0 /\ passed = 0
 
 DoAssert == /\ kind = "assert" /\ verdict = "pending"
-            /\ verdict' = IF HoldsAny(a, l, r) = "T" THEN "silent" ELSE "fails"
+            /\ verdict' = IF HoldsAny(a, l, r) = "T" THEN "silent" ELSE IF HoldsAny(a, l, r) \in {"X", "XU"} THEN "any" ELSE "fails"
             /\ UNCHANGED <<kind, a, l, r, cases, done, passed>>
 \* unit_test: cases are processed in order; each is an assert_equal on the result of a call
 RunCase == /\ kind = "unit_test" /\ done < Len(cases)
@@ -188,7 +225,7 @@ TheoremState == kind = "unit_test" /\ done = 0 /\ cases = <<"pass">>
 Evaluable(x, y) == Val(x).k # "err" /\ Val(y).k # "err"
 Complement == TheoremState => \A aa \in Asserts : Negation(aa) \in Asserts =>
     \A x \in LDom(aa), y \in RDom(aa) :
-        (x # "err" /\ y # "err" /\ HoldsAny(aa, x, y) # "U") =>
+        (x # "err" /\ y # "err" /\ HoldsAny(aa, x, y) \in {"T", "F"} /\ HoldsAny(Negation(aa), x, y) \in {"T", "F"}) =>
             (HoldsAny(aa, x, y) = "T" <=> HoldsAny(Negation(aa), x, y) = "F")
 EqSymmetric == TheoremState => \A x \in ValNames, y \in ValNames : Holds("equal", Val(x), Val(y)) = Holds("equal", Val(y), Val(x))
 NeverBothPass == TheoremState => \A aa \in Asserts : Negation(aa) \in Asserts =>
